@@ -581,8 +581,8 @@ class Check(core.PropertyCheck):
         for m in models[:2]:
             g = m.graph
             behs = g.edge_cover(ctx.rng, max_len=40, tail=12)
-            if ctx.quick and len(behs) > 3000:
-                behs = ctx.rng.sample(behs, 3000)  # quick tier replays a seeded sample of the cover, thorough all of it
+            if ctx.quick and len(behs) > 8000:
+                behs = ctx.rng.sample(behs, 8000)  # quick tier replays a seeded sample of the cover, thorough all of it
             behs += g.random_walks(ctx.rng, 400 if ctx.quick else 8000, 30)
             for b in behs:
                 yield self._mk(m.constants, b, ctx.rng, "model")
